@@ -612,6 +612,10 @@ class ElementNode(XmlNode):
         if not var.any_type and not var.is_wildcard:
             return nodes.PrimitiveNode(self.meta, var, ns_map, self.config, xsi_nil)
 
+        if xsi_nil and var.nillable and var.any_type and not xsi_type:
+            # A nil anyType element is no value, not a generic element
+            return nodes.PrimitiveNode(self.meta, var, ns_map, self.config, xsi_nil)
+
         datatype = DataType.from_qname(xsi_type) if xsi_type else None
         derived = var.is_wildcard
         if datatype:
